@@ -3,11 +3,11 @@ import GB.C03.Spec
 /-
   C03 driver. Case lines (fields separated by one space, byte strings hex `x…`):
 
-    m <tspec> <comps> <verb>            => <ast|ERR> [<opcodes> <pool> <verb> <fields> <P|E> <res>]
+    m <tspec> <comps> <verb>            => ERR | <res> <P|E> <ast> <opcodes> <pool> <verb> <fields>
         real gwbased.Parse + Compile + runtime.NewPattern + MatchAndEscape on one template
-    u <pru|req> <target>                => err | <Path> <RawPath> <EscapedPath>
+    u <pru|req> <target>                => err | ok <Path> <RawPath> <EscapedPath>
         real url.ParseRequestURI / http.ReadRequest on a request target
-    r <table> <method> <req|raw|path> <x> => <parsed asts ;-separated> <found:ti:si:mi:bi|d:params | err:Code | urlerr>
+    r <table> <method> <req|raw|path> <x> => <found:ti:si:mi:bi|d:params | err:Code | urlerr> <parsed asts ;-separated>
         real PatternRouter (Watch + UpdateDesc per target, fake pool) + RouteHTTP
 
   tspec  = `A:`ast (intended AST, rendered to template text by the harness) | `R:`hex (raw template text)
@@ -106,7 +106,7 @@ def handleMatch (tspec comps verb : String) (out : List String) : String :=
       match intended with
       | some _ => "DIFF model=parsed (the real parser rejected a grammar-generated template)"
       | none => "OK b=m-parse-error"
-    | [astS, opsS, poolS, verbS, fieldsS, patS, resS] =>
+    | [resS, patS, astS, opsS, poolS, verbS, fieldsS] =>
       match parseAst astS with
       | none => "BAD ast"
       | some t =>
@@ -147,11 +147,11 @@ def handleUrl (kind target : String) (out : List String) : String :=
     | some m =>
       let model := match m with
         | none => "err"
-        | some u => s!"{toHex u.path} {toHex u.rawPath} {toHex (escapedPath u)}"
+        | some u => s!"ok {toHex u.path} {toHex u.rawPath} {toHex (escapedPath u)}"
       let impl := " ".intercalate out
       -- spec: the path RouteHTTP routes on is the request target's path text, untouched
       let specOk : Bool := match m, out with
-        | some _, [_, rp, ep] => (if rp ≠ "x" then rp else ep) == toHex (beforeQuery raw)
+        | some _, [_, _, rp, ep] => (if rp ≠ "x" then rp else ep) == toHex (beforeQuery raw)
         | _, _ => true
       if ¬ specOk then s!"VIOL url path choice differs from the target's path text {toHex (beforeQuery raw)}"
       else if impl ≠ model then s!"DIFF model={model}"
@@ -292,7 +292,7 @@ def specJudge (entries : List (RouteId × Bytes × Tmpl)) (method path : Bytes) 
 
 def handleRoute (table method kind x : String) (out : List String) : String :=
   match parseTableIn table, parseHex method, parseHex x, out with
-  | some tin, some meth, some xb, [parsedS, res] =>
+  | some tin, some meth, some xb, [res, parsedS] =>
     match (parsedS.splitOn ";").mapM parseParsed with
     | none => "BAD parsed list"
     | some parsed =>
